@@ -584,10 +584,12 @@ func (g *Gen) intExpr(t *Type, sc *Scope, depth int) (string, bool) {
 		// element of a string, slice or map in scope
 		for _, v := range sc.all() {
 			if v.T.Kind == KString && g.n(2) == 0 {
-				return fmt.Sprintf("%s(%s[ix(%s, len(%s))])", t.Name, g.strOperand(v), g.expr(g.U.TI, sc, depth-1), g.strOperand(v)), false
+				// (through helpers that yield zero for an empty operand: an index panic
+				// inside an expression is not ordered relative to the calls around it)
+				return fmt.Sprintf("%s(sat(string(%s), %s))", t.Name, g.strOperand(v), g.expr(g.U.TI, sc, depth-1)), false
 			}
 			if v.T.Kind == KSlice && v.T.Elem == t && g.n(2) == 0 {
-				return fmt.Sprintf("%s[ix(%s, len(%s))]", v.Name, g.expr(g.U.TI, sc, depth-1), v.Name), false
+				return fmt.Sprintf("at(%s, %s)", v.Name, g.expr(g.U.TI, sc, depth-1)), false
 			}
 			if v.T.Kind == KMap && v.T.Elem == t && g.n(2) == 0 {
 				ks := keyLits(v.T.Key)
